@@ -290,7 +290,7 @@ theorem ref_names_folder_partial (h0 : Hist) (ops : List Op) (h : Hist) (hinit :
 
 /-- a document that was just created (no objects, folder "") with any pool of unattached documents
     satisfies the invariant -/
-theorem inv_fresh (id : Nat) (mt : Str) (hs : Bool) (pics : List Pic) (th : Option Bytes) (ex : List Extra)
+theorem inv_fresh (id : Nat) (mt : Str) (hs : Bool) (pics : List Pic) (th : Option Thumb) (ex : List Extra)
     (pool : List Doc) : Inv ⟨⟨id, mt, hs, pics, th, ex, [], []⟩, pool, []⟩ := by
   refine ⟨by simp [Pos, PosK], ?_⟩
   intro x hx; simp at hx
